@@ -640,7 +640,7 @@ func BlockedOthers() []string {
 	return out
 }
 
-// MapKeys returns the keys of m in a deterministic order (Go randomises map
+// MapKeys returns the keys of m in an order the explorer owns (Go randomises map
 // iteration per loop; un-owned it would break replay).
 func MapKeys[M ~map[K]V, K comparable, V any](site string, m M) []K {
 	keys := make([]K, 0, len(m))
@@ -648,6 +648,28 @@ func MapKeys[M ~map[K]V, K comparable, V any](site string, m M) []K {
 		keys = append(keys, k)
 	}
 	sort.Slice(keys, func(i, j int) bool { return keyLess(keys[i], keys[j]) })
+	if len(keys) < 2 {
+		return keys
+	}
+	// the order is an environment answer (class Order): sorted by default; the alternatives put every other
+	// element first at least once (reversed, and for three or more keys the rotations by one and by two)
+	labels := []string{"sorted", "reversed"}
+	if len(keys) > 2 {
+		labels = append(labels, "rotated by 1")
+	}
+	if len(keys) > 3 {
+		labels = append(labels, "rotated by 2")
+	}
+	switch Choose(Order, "map order "+site, labels...) {
+	case 1:
+		for i, j := 0, len(keys)-1; i < j; i, j = i+1, j-1 {
+			keys[i], keys[j] = keys[j], keys[i]
+		}
+	case 2:
+		keys = append(keys[1:], keys[0])
+	case 3:
+		keys = append(keys[2:], keys[:2]...)
+	}
 	return keys
 }
 
